@@ -195,7 +195,8 @@ type Q struct {
 	Rpc     bool   `json:"rpc,omitempty"`
 	Api     string `json:"api,omitempty"` // with Rpc: "" = v10, "v9", "v8" (one address at most; v8: no pre-confirmed blocks)
 	Pre     []Plan `json:"pre,omitempty"`
-	Tok     string `json:"token,omitempty"` // start from this (forged) continuation token instead of the first page
+	Tok     string `json:"token,omitempty"`   // start from this (forged) continuation token instead of the first page
+	L1      int    `json:"l1_head,omitempty"` // the node's L1 head (block id `l1_accepted`; rpc v9 / v10)
 }
 
 const sentinel = math.MaxUint64
@@ -204,6 +205,8 @@ const sentinel = math.MaxUint64
 // for a chain of the given height (number of the head).
 func (q Q) bounds(head int) (from, to uint64) {
 	switch q.FromTag {
+	case "l1_accepted":
+		from = uint64(q.L1)
 	case "latest":
 		from = uint64(head)
 	case "pre_confirmed":
@@ -215,6 +218,8 @@ func (q Q) bounds(head int) (from, to uint64) {
 		from = uint64(q.From)
 	}
 	switch q.ToTag {
+	case "l1_accepted":
+		to = uint64(q.L1)
 	case "latest":
 		to = uint64(head)
 	case "pre_confirmed":
@@ -313,6 +318,8 @@ func (w *World) mkPre(plans []Plan) []*pending.PreConfirmed {
 func (w *World) blockID(tag string, num int) (*rpcv10.BlockID, error) {
 	var id rpcv10.BlockID
 	switch tag {
+	case "l1_accepted":
+		id = rpcv10.BlockIDL1Accepted()
 	case "latest":
 		id = rpcv10.BlockIDLatest()
 	case "pre_confirmed":
@@ -443,6 +450,8 @@ func (w *World) rpcEvents(n *Node, q Q, pre []*pending.PreConfirmed, tok string,
 		id := func(tag string, num int) (*rpcv9.BlockID, error) {
 			var b rpcv9.BlockID
 			switch tag {
+			case "l1_accepted":
+				b = rpcv9.BlockIDL1Accepted()
 			case "latest":
 				b = rpcv9.BlockIDLatest()
 			case "pre_confirmed":
